@@ -11,7 +11,7 @@ PROCS = [('naive', 'grounded', 'grounded'), ('naive', 'complete', 'complete'), (
          ('hybrid', 'grounded', 'grounded'), ('biodivine', 'complete', 'complete'), ('hybrid', 'stable', 'stable'), ('naive', 'heu_a', 'stable'),
          ('naive', 'nogood:MinModMinPathsMaxVarImp', 'stable')]
 RENAME_POOL = ['a', 'b', 'c', 'd', 'e', 'z', 'y', 'x10', 'x9', 'x2', 'X', 'B', 'and', 'or', 'neg', 'imp', 'iff', 'xor', 'ac', 's', 'c1', 'cv', 'v', 'f', '10', '9', '007',
-               'st 1', 'q,1', 'u.1', 'aa', 'ab', 'Aa', 'a1', 'a10', 'a2']
+               'st 1', 'q,1', 'u.1', 'aa', 'ab', 'Aa', 'a1', 'a10', 'a2', 'true', 'false', 'not', 'a,b', 'b,c']
 
 
 def rename(f, mp):
@@ -33,7 +33,7 @@ def presentations(rng, names, acs, count):
         facts = [('s', x) for x in rn] + [('ac', x) for x in rn]
         if i > 0: rng.shuffle(facts)
         txt = T.render(rn, racs, rng, order=facts, layout=(i % 3 == 2))
-        out.append({'text': txt, 'map': mp, 'sort': ['none', 'lexi', 'alphanum'][i % 3], 'shuffled': i > 0, 'renamed': i % 2 == 1})
+        out.append({'text': txt, 'map': mp, 'sort': ['none', 'lexi', 'alphanum'][i % 3], 'shuffled': i > 0, 'renamed': i % 2 == 1, 'reuse': i % 4 >= 2})
     return out
 
 
@@ -58,9 +58,9 @@ def custom_run(ctx, tier, seed):
             inv = {v: k for k, v in pr['map'].items()}
             for backend, proc, kind in PROCS:
                 if kind not in exp: continue
-                out = nat.call({'cmd': 'sem_text', 'text': pr['text'], 'backend': backend, 'proc': proc, 'sort': pr['sort']}, timeout=120)
+                out = nat.call({'cmd': 'sem_text', 'text': pr['text'], 'backend': backend, 'proc': proc, 'sort': pr['sort'], 'reuse': pr['reuse']}, timeout=120)
                 key_ = 'C10:%s:%s:%s:%s' % (backend, proc, pr['sort'], hashlib.sha1(pr['text'].encode()).hexdigest()[:12])
-                v = {'text': pr['text'], 'backend': backend, 'proc': proc, 'sort': pr['sort'], 'map': pr['map'], 'names': names, 'expected': exp[kind]}
+                v = {'text': pr['text'], 'backend': backend, 'proc': proc, 'sort': pr['sort'], 'map': pr['map'], 'names': names, 'expected': exp[kind], 'reuse': pr['reuse']}
                 if 'result' not in out:
                     confirmed.append((key_, dict(v, kind='no-answer', what='%s/%s gives no answer for this presentation: %s' % (backend, proc, str(out)[:160])), out)); st['dis'] += 1; continue
                 bn = [inv[x] for x in out['names']]
@@ -78,7 +78,7 @@ def custom_run(ctx, tier, seed):
     cov = {'programs': st['programs'], 'disagreements_checked': st['dis'], 'samples': samples or [{'note': 'none'}], 'adfs': st['adfs'], 'answers_judged': st['answers'],
            'z3_queries': st['q'], 'z3_seconds': round(st['t'], 2), 'procedures': ['%s/%s' % (b, p) for b, p, _ in PROCS],
            'bounds': '%d ADFs drawn from VERIF_SEED (2-5 statements for complete / stable / two-valued, up to 30 for grounded) x %d presentations each: shuffled s/ac facts (ac may precede its s), '
-                     'free layout, sort mode none / lexicographic / alphanumeric, injective renaming into a pool with keyword look-alikes, digits and quoted labels; every answer is compared '
+                     'free layout, sort mode none / lexicographic / alphanumeric (half of them applied to a parser object that has already built an ADF), injective renaming into a pool with keyword look-alikes, digits and quoted labels; every answer is compared '
                      'with the definitional answer decided once per ADF by z3 on the formulas' % (st['adfs'], npres),
            'outside_the_bound': 'ADFs / presentations not drawn; CLI flag plumbing (C15)'}
     return {'level': 'translation_validation', 'coverage': cov, 'confirmed': confirmed, 'inconclusive': inconclusive,
@@ -87,7 +87,7 @@ def custom_run(ctx, tier, seed):
 
 
 def replay(ctx, v):
-    out = ctx.native().call({'cmd': 'sem_text', 'text': v['text'], 'backend': v['backend'], 'proc': v['proc'], 'sort': v['sort']}, timeout=120)
+    out = ctx.native().call({'cmd': 'sem_text', 'text': v['text'], 'backend': v['backend'], 'proc': v['proc'], 'sort': v['sort'], 'reuse': v.get('reuse', False)}, timeout=120)
     if 'result' not in out: return 'reproduced', out
     inv = {b: a for a, b in v['map'].items()}
     got = as_declared(v['names'], {'names': [inv[x] for x in out['names']], 'result': out['result']})
